@@ -11,6 +11,8 @@ from impl import project as PR
 
 ID = "C14"
 LEAN_TARGETS = ["CLModel.Props.C14"]
+# the composed model (FiltM) also follows paths/matcher.py: a change there raises this check's search budget too
+EXTRA_FILES = ("compare_locales/paths/matcher.py",)
 M = "CLModel.Props.C14"
 THEOREMS = [
     (M, "C14.filter_spec", "config.filter (loop, break, action sets, early returns, cache) = reference interpreter of the documented semantics, for every configuration tree, file and key"),
@@ -35,18 +37,57 @@ THEOREMS = [
     (M, "C14.compare_respects_filter", "missing-entity loop: missing = #error keys, report = #warning keys, merged = error keys, shown = non-ignored keys"),
     (M, "C14.ignored_and_warning_keys", "ignored missing keys are neither counted, shown nor merged; warning ones are not merged and counted as report"),
     (M, "C14.compare_many_observers", "several observers: the comparer acts on the most severe answer"),
+    # ---- the composed model: filter over the executable model of Matcher (verdicts as a function of the pattern TEXTS)
+    (M, "C14.filterm_eq_filter", "the composed verdict (Matcher constructions, with_env({locale}), lazy match calls, raise sites kept) = abstract filter of the instantiated configuration: every theorem above holds for real pattern texts"),
+    (M, "C14.filterm_raise_sites", "filter raises only if some Matcher construction / with_env / match of the configuration tree raises for this file"),
+    (M, "C14.instantiate_spec", "the instantiated configuration: one abstract path/rule per pattern text, predicate = Matcher(text, environ, root).with_env({locale}).match(fullpath) is not None"),
+    (M, "C14.literal_rule_applies", "a rule/l10n path whose pattern is a literal text applies to exactly that file path (root-relative when rooted); the match dict is EMPTY (fixed finding F14: falsy)"),
+    (M, "C14.star_rule_scope", "a rule dir/*.ext applies to dir/x.ext iff x contains no '/', and then s1 = x (any environment, root, locale)"),
+    (M, "C14.star_rule_general", "for every rule path with a top-level *: when it applies, the star's text has no '/' and the whole path was consumed (C12 on the bound matcher)"),
+    (M, "C14.locale_binding", "{locale} is the queried file's locale: the matcher consulted binds locale to the file's locale whatever environ says, other variables as in environ; a matched top-level {locale} reports locale = file.locale"),
+    (M, "C14.locale_binding_plain_env", "the shape hypothesis of locale_binding holds for every environment of texts without * and {"),
+    (M, "C14.environ_locale_overridden", "an environ entry for 'locale' never reaches a verdict: cache() rebinds it for the queried file"),
+    (M, "C14.own_last_rule_wins_texts", "own verdict of any node of a configuration tree, read on the texts: last applicable rule text wins"),
+    (M, "C14.own_default_error_texts", "own verdict on texts: covered and no rule text applies: error"),
+    (M, "C14.own_not_covered_texts", "own verdict on texts: no l10n pattern text matches: none"),
+    (M, "C14.last_rule_wins_texts", "configuration without includes/excludes, on texts: the verdict is the action of the last applicable rule text"),
+    (M, "C14.default_error_texts", "on texts: covered and no rule text applies: error"),
+    (M, "C14.not_covered_ignore_texts", "on texts: no l10n pattern text matches: ignore"),
+    (M, "C14.literal_rule_last_wins", "a literal rule at the end of the rule list decides the verdict of exactly its own file"),
+    (M, "C14.star_rule_last_wins", "a rule dir/*.ext at the end of the rule list decides dir/x.ext for every '/'-free x"),
+    (M, "C14.star_rule_stops_at_slash", "dir/*.ext as the only rule: dir/x.ext with a '/' in x gets the default error"),
+    (M, "C14.ExamplesM.lazy_witness", "negation witness: a raising rule before the applicable one is never consulted (code returns, eager instantiation raises); after it the code raises"),
 ]
-PARTIAL = []
+PARTIAL = [
+    "composed model (FiltM): filterm_eq_filter is one-directional by necessity (lazy code may return where the eager "
+    "instantiation raises: ExamplesM.lazy_witness); raising configurations are covered by the correspondence stream only",
+    "concrete pattern classes proved exactly: literal texts and dir*suffix (no * / { in dir and suffix, dir non-empty), any "
+    "environment/root/locale; {locale}: binding for every pattern, captured value for EnvOK environments and locale texts "
+    "without specials; other pattern shapes (**, several wildcards, nested variables) reach verdict level through "
+    "filterm_eq_filter + the C11/C12 theorems (star_rule_general), not through a closed-form 'applies iff'",
+    "the text-level last-rule-wins/default/not-covered theorems assume that every matcher of the node returns for the file "
+    "(hypothesis instantiate = ok); rule dictionaries with path/key LISTS are compiled by addRulesM (mirror of "
+    "_compile_rule, tied by the c14.filterm correspondence), own_on_rule_dicts is not restated over texts",
+]
 LEVEL_TEXT = ("Lean 4 theorems over an executable transliteration of ProjectConfig._compile_rule/all_locales/cache/_filter/filter "
               "and of the missing-entity branch of Observer.notify/ObserverList.notify/ContentComparer.compare: for ALL configuration "
               "trees, files, keys, path predicates and key regexes the verdict equals an independent reference interpreter "
               "(locale test, exclude short-circuit, most severe of own and children, last applicable rule, error by default), with "
               "corollaries for last-rule-wins, key/file distinction, rule lists, literal vs re: keys and the comparer's counts/merge; "
               "the model is tied to the Python by bounded-exhaustive + random differential runs on real ProjectConfig objects and on "
-              "real ContentComparer runs over files, and a separate Python reference interpreter judges the implementation directly")
-LEVEL_NOTE = ("trusted: Lean kernel; hand-written models CLModel/Paths/Filter.lean and CLModel/Compare/MissingFilter.lean (validated by "
-              "correspondence); path matching (Matcher) is an abstract predicate in the model, filled from the real Matcher per case "
-              "(Matcher itself is C11/C12) while the oracle uses its own few-line pattern semantics; user key regexes run on the Rx "
+              "real ContentComparer runs over files, and a separate Python reference interpreter judges the implementation directly; "
+              "COMPOSED with the executable model of paths/matcher.py (C11/C12): CLModel/Paths/FilterM.lean builds every Matcher from its "
+              "pattern TEXT, environment and root, binds {locale} as cache() does and calls match lazily with the raise sites kept; "
+              "filterm_eq_filter proves the composed verdict equal to the abstract one, so all theorems hold for real pattern texts, and "
+              "the claims are restated over concrete patterns (literal paths, dir/*.ext, {locale}); the composed model is tied to the real "
+              "ProjectConfig.filter by its own correspondence stream that sends pattern texts (no table from the real Matcher), including "
+              "rooted configurations, Android locale codes and matchers that raise")
+LEVEL_NOTE = ("trusted: Lean kernel; hand-written models CLModel/Paths/Filter.lean, CLModel/Paths/FilterM.lean, CLModel/Paths/Matcher.lean and "
+              "CLModel/Compare/MissingFilter.lean (validated by correspondence); in the `c14.filter` / `c14.compare` streams path matching "
+              "(Matcher) is an abstract predicate filled from the real Matcher per case; in the composed `c14.filterm` stream Matcher is NOT "
+              "abstract: the driver receives the pattern texts, environment and root and runs the model of Matcher (parse, with_env, regex "
+              "construction, Rx engine), exceptions compared by class; Pattern.root is passed as Matcher stores it (mozpath.abspath(root)+'/': "
+              "the os.path normalisation is outside the model); the oracle uses its own few-line pattern semantics; user key regexes run on the Rx "
               "engine (validated differentially); legacy filter.py configurations and files with locale None are outside the model "
               "(None-locale files are judged by the oracle only); literal keys also match the key followed by one newline (proved, "
               "probed, not judged: entity keys contain no newline); configurations are built completely before they are queried "
@@ -55,7 +96,8 @@ TECHNIQUE = "Lean 4 proof (model = reference interpreter) + differential corresp
 TRUSTED = [
     "hand-written model CLModel/Paths/Filter.lean of ProjectConfig (tied by the `c14.filter` correspondence)",
     "hand-written model CLModel/Compare/MissingFilter.lean of the missing-entity branch (tied by the `c14.compare` correspondence)",
-    "Matcher is abstract in the model: its extension on the case's universe comes from the real Matcher",
+    "hand-written model CLModel/Paths/FilterM.lean (composition with CLModel/Paths/Matcher.lean; tied by the `c14.filterm` correspondence on pattern texts)",
+    "Matcher is abstract in the `c14.filter`/`c14.compare` streams (its extension on the case's universe comes from the real Matcher); it is the executable model of C11/C12 in the composed stream",
     "Python sets of actions modelled as lists used through membership only",
 ]
 ASSUMPTIONS = [
@@ -278,6 +320,129 @@ def gen_compare(rng):
     return [specs, locale, rel, ref_keys, l10n_keys, fmt]
 
 
+
+# ------------------------------------------------------------------ composed stream only: roots, Android codes, raising matchers
+LOCS_M = ["de", "fr", "he-IL", "sr-Latn"]
+RELS_M = ["browser/a.ftl", "browser/sub/c.ftl", "toolkit/a.ftl"]
+ENTS_M = [None, "one", "two"]
+# pattern texts whose Matcher raises when it is used (kept as ONE literal token: pat_str passes them through)
+RAISE_ROOTED = ["*/browser/a.ftl", "**/a.ftl", "{nobody}/browser/**"]      # KeyError, KeyError, MissingEnvironment (rooted only)
+RAISE_ANY = ["/src/{dup}/{locale}/**", "/src/{locale}/*/{s1}"]              # re.error (group defined twice / unknown reference)
+
+
+def files_m():
+    fs = []
+    for l in LOCS_M:
+        for base in ("/cfg/", "/cfg/l10n/", "/cfg/sub/", "/src/"):
+            for r in RELS_M[:2] if base != "/src/" else RELS_M:
+                fs.append({"fullpath": base + l + "/" + r, "locale": l})
+        fs.append({"fullpath": "/src/res/values-%s/strings.xml" % PR.ref_android(l), "locale": l})
+    fs.append({"fullpath": "/src/res/values-iw-rIL/strings.xml", "locale": "de"})
+    fs.append({"fullpath": "/cfg/de/browser/a.ftl", "locale": "fr"})
+    return fs
+
+
+def gen_pat_m(rng, env, root, raising):
+    if raising and rng.random() < 0.12:
+        return [rng.choice(RAISE_ROOTED + RAISE_ANY if root else RAISE_ANY)]
+    x = rng.random()
+    if x < 0.12:
+        return ["/src/res/values-", ["var", "android_locale"], "/strings.xml"]
+    if root and x < 0.7:
+        out = [rng.choice(["", "", "l10n/"])]
+        if "rel_base" in env and rng.random() < 0.5:
+            out = [["var", "rel_base"], "/"]
+    elif "l10n_base" in env and rng.random() < 0.6:
+        out = [["var", "l10n_base"], "/"]
+    else:
+        out = ["/src/"]
+    y = rng.random()
+    out.append(V if y < 0.8 else ("de" if y < 0.92 else S))
+    if out[0] == "" and out[1] is S:
+        out[1] = V        # a rooted pattern must not begin with a wildcard (finding F11: it raises)
+    rel = rng.choice(RELS_M)
+    d, f = rel.rsplit("/", 1)
+    top = d.split("/")[0]
+    ext = f.rsplit(".", 1)[1]
+    rest = rng.choice([["/", SS], ["/" + top + "/", SS], ["/", S, "/" + f], ["/", SSD, f], ["/" + top + "/", S, "." + ext],
+                       ["/" + rel], ["/", SSD, S, "." + ext], ["/" + d + "/", S]])
+    toks = []
+    for t in out + rest:
+        if t == "":
+            continue
+        if isinstance(t, str) and toks and isinstance(toks[-1], str):
+            toks[-1] += t
+        else:
+            toks.append(t)
+    return toks
+
+
+def gen_cfg_m(rng, depth, maxdepth, raising, top=True):
+    root = rng.choice([None, "/cfg", "/cfg", "/cfg/sub"])
+    env = {}
+    if rng.random() < 0.5:
+        env["l10n_base"] = "/src"
+    if root and rng.random() < 0.4:
+        env["rel_base"] = "l10n"
+    if raising:
+        env["dup"] = "{locale}x"
+    if rng.random() < 0.15:
+        env["locale"] = "zz"            # cache() overrides it with the file's locale
+    locales = None if rng.random() < (0.1 if top else 0.3) else [l for l in LOCS_M if rng.random() < 0.8]
+    spec = {"locales": locales, "env": env, "paths": [], "rules": [], "children": [], "excludes": []}
+    if root:
+        spec["root"] = root
+    for i in range(rng.choice([1, 1, 2, 2, 3])):
+        p = {"l10n": gen_pat_m(rng, env, root, raising)}
+        if i == 0 and rng.random() < 0.5:
+            # a broad first path, so that the rules are reached
+            p["l10n"] = ([V, "/", SS] if rng.random() < 0.5 else ["l10n/", V, "/", SS]) if root and rng.random() < 0.7 else ["/src/", V, "/", SS]
+        if rng.random() < 0.25:
+            p["locales"] = [l for l in LOCS_M if rng.random() < 0.6]
+        spec["paths"].append(p)
+    for _ in range(rng.choice([0, 1, 2, 2, 3, 4])):
+        r = {"action": rng.choice(["error", "warning", "warning", "ignore", "ignore"])}
+        if rng.random() < 0.2:
+            r["path"] = [gen_pat_m(rng, env, root, raising) for _ in range(rng.randrange(1, 3))]
+            r["path_is_list"] = True
+        else:
+            r["path"] = gen_pat_m(rng, env, root, raising)
+            if spec["paths"] and rng.random() < 0.35:
+                r["path"] = spec["paths"][0]["l10n"]      # a rule for everything the first path covers
+        if rng.random() < 0.5:
+            r["key"] = rng.choice(["one", "re:o", "re:t", ["one", "two"]])
+        spec["rules"].append(r)
+    if depth < maxdepth:
+        for _ in range(rng.choice([0, 0, 1, 2])):
+            spec["children"].append(gen_cfg_m(rng, depth + 1, maxdepth, raising, False))
+    if top:
+        for _ in range(rng.choice([0, 0, 0, 1])):
+            spec["excludes"].append(gen_cfg_m(rng, depth + 1, maxdepth, raising, False))
+    return spec
+
+
+def directed_m():
+    """small fixed configurations of the composed stream: literal path, star scope, {locale} binding, laziness of
+    the raise sites (a raising rule before / after the applicable one, a raising l10n path after a matching one,
+    an included configuration answering error before the own matchers are consulted)"""
+    cover = {"l10n": ["/src/", V, "/", SS]}
+    lit = {"path": ["/src/de/browser/a.ftl"], "action": "ignore"}
+    star = {"path": ["/src/", V, "/browser/", S, ".ftl"], "action": "warning"}
+    boom = {"path": ["/src/{dup}/{locale}/**"], "action": "ignore"}
+    env = {"dup": "{locale}x"}
+    out = []
+    for rules in ([lit], [star], [lit, star], [star, lit], [boom, star], [star, boom], [boom], [lit, boom]):
+        n = node([cover], rules)
+        n["env"] = dict(env)
+        out.append((n, False))
+    n = node([cover, {"l10n": ["/src/{dup}/{locale}/**"]}], [star]); n["env"] = dict(env); out.append((n, False))
+    n = node([{"l10n": ["/src/{dup}/{locale}/**"]}, cover], [star]); n["env"] = dict(env); out.append((n, False))
+    child_err = node([cover], [])
+    n = node([{"l10n": ["/src/{dup}/{locale}/**"]}], [], children=[child_err]); n["env"] = dict(env); out.append((n, False))
+    n = node([{"l10n": ["*/browser/a.ftl"]}], []); n["root"] = "/cfg"; out.append((n, False))
+    n = node([{"l10n": [V, "/browser/", S, ".ftl"]}], [{"path": ["de/browser/a.ftl"], "action": "ignore"}]); n["root"] = "/cfg"; out.append((n, True))
+    return out
+
 def _retry(fn, a, r):
     """a worker that did not answer in time (loaded machine) is not a finding: run the case in-process"""
     if r is not None and "r" in r:
@@ -366,6 +531,66 @@ def run(ctx):
                 qs = [q for q, a, b in zip(r["model_queries"], sub, mo) if a != b] if len(mo) == len(sub) else []
                 out.disagreements.append({"op": "filter", "spec": spec, "impl": sub, "model": mo,
                                           "first_query": ({"file": files[qs[0] // ne], "entity": ents[qs[0] % ne]} if qs else None)})
+    # ---------------------------------------------------------------- composed model (pattern texts, no Matcher table)
+    # (a) the same cases: the driver gets the pattern texts, environment and root and runs the model of Matcher itself
+    linesm = [res[i]["r"]["line_m"] for i in keep]
+    modelm = C.run_driver_parallel(linesm) if ctx.model_ok else [None] * len(linesm)
+    for j, i in enumerate(keep):
+        r = res[i]["r"]
+        mo = modelm[j]
+        if mo is None or r["oracle"] or r["history"]:
+            continue
+        sub = "".join(r["implm"][q] for q in r["model_queries"])
+        out.count("filterm.same-cases")
+        if mo != sub:
+            kind, spec, files, ents = cases[i]
+            ne = len(ents)
+            qs = [q for q, a, b in zip(r["model_queries"], sub, mo) if a != b] if len(mo) == len(sub) else []
+            out.disagreements.append({"op": "filterm", "spec": spec, "impl": sub, "model": mo,
+                                      "first_query": ({"file": files[qs[0] // ne], "entity": ents[qs[0] % ne]} if qs else None)})
+    # (b) cases of the composed stream only: rooted configurations, Android codes, an environment that binds "locale",
+    #     matchers that raise (judged by the reference interpreter where it defines an answer)
+    rngm = ctx.rng("c14", "filterm")
+    fm = files_m()
+    mcases = [(spec, judge) for spec, judge in directed_m()]
+    for k in range(ctx.n(500, 6000)):
+        raising = k % 3 == 0
+        mcases.append((gen_cfg_m(rngm, 1, rngm.choice([1, 2, 2, 3]), raising), not raising))
+    margs = [[spec, fm, ENTS_M, judge] for spec, judge in mcases]
+    mres = pool.pmap("impl.project", "filterm_case", margs, timeout=20.0, batch=24)
+    mres = [_retry(PR.filterm_case, a, r) for a, r in zip(margs, mres)]
+    mlines, mkeep = [], []
+    for i, r in enumerate(mres):
+        if r is None or "r" not in r:
+            out.violations.append({"what": "filterm case raised %s" % (r,), "input": {"spec": margs[i][0]}, "op": "filter-crash"})
+            continue
+        mlines.append(r["r"]["line_m"])
+        mkeep.append(i)
+    mmodel = C.run_driver_parallel(mlines) if ctx.model_ok else [None] * len(mlines)
+    ne = len(ENTS_M)
+    for j, i in enumerate(mkeep):
+        spec, judge = mcases[i]
+        r = mres[i]["r"]
+        impl = r["implm"]
+        out.evaluations += len(impl)
+        for ch in impl:
+            out.count("filterm.answer." + ch)
+        if len(set(impl)) >= 2:
+            out.nontrivial.add(("m", digest(r["line_m"]), impl))
+        bad = False
+        for q, exp, got, _ in r["oracle"][:3]:
+            bad = True
+            out.violations.append({"what": "filter verdict %s, reference semantics say %s" % (got, exp), "op": "filter",
+                                   "input": {"spec": spec, "file": fm[q // ne], "entity": ENTS_M[q % ne]}, "expected": exp, "got": got})
+        for q in r["history"][:2]:
+            bad = True
+            out.violations.append({"what": "answer depends on the query history (forward vs backward order on fresh objects)", "op": "filterm-history",
+                                   "input": {"spec": spec, "file": fm[q // ne], "entity": ENTS_M[q % ne]}})
+        mo = mmodel[j]
+        if mo is not None and not bad and mo != impl:
+            qs = [q for q, (a, b) in enumerate(zip(impl, mo)) if a != b] if len(mo) == len(impl) else []
+            out.disagreements.append({"op": "filterm", "spec": spec, "impl": impl, "model": mo,
+                                      "first_query": ({"file": fm[qs[0] // ne], "entity": ENTS_M[qs[0] % ne]} if qs else None)})
     # ---------------------------------------------------------------- compare link
     rngc = ctx.rng("c14", "compare")
     cargs = [gen_compare(rngc) for _ in range(ctx.n(500, 6000))]
@@ -420,4 +645,7 @@ def replay(payload):
         elif v.get("op") == "filter-history":
             r = PR.filter_case(i["spec"], [i["file"]], [i["entity"]], [0])
             res.append({"input": i, "violates": bool(r["history"] or r["oracle"])})
+        elif v.get("op") == "filterm-history":
+            r = PR.filterm_case(i["spec"], files_m(), ENTS_M, False)
+            res.append({"input": i, "violates": bool(r["history"])})
     return {"violates": any(r["violates"] for r in res), "cases": res}
